@@ -186,7 +186,8 @@ def parse_full(resp):
             "kind": f["K"], "tag": int(f["G"]), "toplevel": f["T"] == "1", "loop": f["L"] == "1",
             "mlocals": None if f["M"] == "none" else set(dec_names(f["M"])),
             "decls": decls, "order": dec_names(f["O"]),
-            "mlocals_order": None if f["MO"] == "none" else dec_names(f["MO"]), "conflicts": dec_names(f["X"]), "entry_errors": dec_names(f["E"]), "res": res}
+            "mlocals_order": None if f["MO"] == "none" else dec_names(f["MO"]), "conflicts": dec_names(f["X"]),
+            "updates": None if f["U"] == "-" else [dec_names(x) for x in f["U"].split("/")[1:]], "entry_errors": dec_names(f["E"]), "res": res}
     assert c.startswith("C=") and ml.startswith("ML=")
     mls = {}
     if ml[3:] != "_":
@@ -262,6 +263,7 @@ class CodeScope:
         self.loop = False
         self.mlocals = None
         self.mlocals_order = None
+        self.updates = []        # key lists of the `__M_locals.update(...)` statements of the function itself, in order
         self.importns = False
         self.populate = []
         self.odd = []            # prelude statements not understood
@@ -308,6 +310,24 @@ def analyse_code(code):
                     find_ccalls(sub, acc)
             for h in getattr(st, "handlers", []) or []:
                 find_ccalls(h.body, acc)
+
+    def find_updates(stmts, acc):
+        for st in stmts:
+            if isinstance(st, ast.FunctionDef):
+                continue
+            if isinstance(st, ast.Expr) and _call_name(st.value) == "__M_locals.update":
+                keys = None
+                for n in ast.walk(st.value):
+                    if isinstance(n, ast.ListComp) and isinstance(n.generators[0].iter, ast.List):
+                        keys = [_const(e) for e in n.generators[0].iter.elts]
+                acc.append(keys)
+                continue
+            for fld in ("body", "orelse", "finalbody"):
+                sub = getattr(st, fld, None)
+                if isinstance(sub, list):
+                    find_updates(sub, acc)
+            for h in getattr(st, "handlers", []) or []:
+                find_updates(h.body, acc)
 
     def do_function(fn, path, unwrap=True):
         sc = CodeScope()
@@ -374,6 +394,7 @@ def analyse_code(code):
         for st in body:
             if _fetch_shape(st, None) or (isinstance(st, ast.FunctionDef) and st.name != "ccall" and _is_stub(st)):
                 sc.after_writer.append(ast.unparse(st)[:60])
+        find_updates(body, sc.updates)
         ccs = []
         find_ccalls(body, ccs)
         for k, cc in enumerate(ccs):
